@@ -44,18 +44,6 @@ Definition nstep (s : store) (o : nop) : store * val :=
 
 Definition nrun (ops : list nop) : store := fold_left (fun s o => fst (nstep s o)) ops ∅.
 
-(** Reference: the set of (owner, key) bindings, as a duplicate-free list. *)
-Definition pair_eqb (a b : bytes * bytes) : bool := bytes_eqb (fst a) (fst b) && bytes_eqb (snd a) (snd b).
-Definition spec_nstep (l : list (bytes * bytes)) (o : nop) : list (bytes * bytes) :=
-  match o, nexec ∅ o with
-  | _, Fault => l     (* acceptance does not depend on the state *)
-  | NAdd _ w ks, _ =>
-      fold_left (fun acc k => if existsb (pair_eqb (w, k)) acc then acc else acc ++ [(w, k)]) ks l
-  | NRemove _ w ks, _ =>
-      filter (fun x => negb (existsb (pair_eqb x) (map (fun k => (w, k)) ks))) l
-  end.
-Definition spec_nrun (ops : list nop) : list (bytes * bytes) := fold_left spec_nstep ops [].
-
 Definition nobserve (owners : list bytes) (s : store) (r : val) : val :=
   VList [ r;
           VList (map (fun w => match nkeys s w with Halt l => VBytesList l | Fault => VFault end) owners);
